@@ -1,12 +1,12 @@
 SPECIFICATION Spec
 CONSTANTS
-  Scheds <- SchedsBetween
+  Scheds <- SchedsChain
   Blocking = {}
   Panicking = {}
   MaxNow = 4
-  MaxStep = 3
-  MaxOps = 4
+  MaxStep = 2
+  MaxOps = 6
   Chain = "none"
-  Variant = "unsortedadd"
+  Variant = "runResetsRunning"
 INVARIANTS Accepted
 CHECK_DEADLOCK FALSE
